@@ -77,3 +77,26 @@ def repo_suite(rng, case, idx):
     M.count('repo_suite.runs')
     M.bucket('repo_suite/exit=%d' % int(rc))
     return {'repo_suite_exit': int(rc)}
+
+
+DENSITY_CONFIGS = {'inf': {'default_solid_density': 'inf', 'default_enzyme_density': 'inf'},
+                   'dense': {'default_solid_density': 2.5, 'default_enzyme_density': 50}}
+
+
+def under_density_configs(jobs):
+    """Copies of `jobs` to be run under the documented non-default densities (zero-volume solids and enzymes;
+    2.5 g/mL and 50 U/mL).  The universal monitors read the configuration in effect, so they apply unchanged."""
+    import copy
+    out = []
+    for tag, cfg in DENSITY_CONFIGS.items():
+        for j in jobs:
+            j2 = copy.deepcopy(j)
+            j2['config'] = cfg
+            j2['kind'] = j['kind']
+            j2['params'] = dict(j.get('params') or {}, density=tag)
+            # distinct case indices, so that the cases differ from the default-configuration ones
+            shift = 1000000 * (1 + list(DENSITY_CONFIGS).index(tag))
+            j2['lo'] += shift
+            j2['hi'] += shift
+            out.append(j2)
+    return out
